@@ -72,6 +72,20 @@ Definition do_request (e : site_env) (b : browser) (q : breq) (f : cfault) : kre
           b_now := b_now b;
           b_session := session_after r rs (b_session b) |}).
 
+(* An SSO deployment with both parties: the SSO server and an SSO proxy (handler_sso_proxy.go) in front of an application
+   on the same SSO domain. [pe] is the proxy as the browser sees it - its scheme, host, Host header and its own ingresses -
+   with the deployment's cookie configuration (names, SSO domain: shared by server and proxy). A request to the proxy:
+   - LogoutLocal, LogoutFrontChannel: r.URL.Path is rewritten to the server's route and the request is relayed through
+     SSOServerReverseProxy with its cookies; the server's answer - status and every Set-Cookie header - is relayed back:
+     the server's [handle] on the cookies the browser sends to the PROXY's URL; the browser files the cookies under the
+     proxy's origin;
+   - Login, Logout and the two callbacks: a 302 (to the server, resp. to the proxy's own login) that sets no cookie. *)
+Definition do_request_proxy (pe : site_env) (b : browser) (q : breq) (f : cfault) : kresponse * browser :=
+  match q_ep q with
+  | EpLogoutLocal | EpFrontChannel => do_request pe b q f
+  | _ => ({| rs_status := 302; rs_kind := CrOther; rs_cookies := [] |}, b)
+  end.
+
 Definition sleep (b : browser) (dt : Z) : browser :=
   {| b_jar := b_jar b; b_now := b_now b + dt; b_session := b_session b |}.
 
